@@ -29,6 +29,13 @@ use crate::{LocalName, Namespace, Prefix};
 
 use crate::tendril::{StrTendril, Tendril};
 
+/// A namespace declaration is an attribute with the prefix `xmlns`, or the unprefixed
+/// attribute `xmlns`. (`p:xmlns` is an ordinary attribute in `p`'s namespace.)
+fn is_namespace_declaration(attr: &Attribute) -> bool {
+    attr.name.prefix == Some(namespace_prefix!("xmlns"))
+        || (attr.name.prefix.is_none() && attr.name.local == local_name!("xmlns"))
+}
+
 static XML_URI: &str = "http://www.w3.org/XML/1998/namespace";
 static XMLNS_URI: &str = "http://www.w3.org/2000/xmlns/";
 
@@ -332,18 +339,20 @@ where
 
         let mut new_attr = vec![];
         // First we extract all namespace declarations
-        for attr in tag.attrs.iter_mut().filter(|attr| {
-            attr.name.prefix == Some(namespace_prefix!("xmlns"))
-                || attr.name.local == local_name!("xmlns")
-        }) {
+        for attr in tag
+            .attrs
+            .iter_mut()
+            .filter(|attr| is_namespace_declaration(attr))
+        {
             self.declare_ns(attr);
         }
 
         // Then we bind those namespace declarations to attributes
-        for attr in tag.attrs.iter_mut().filter(|attr| {
-            attr.name.prefix != Some(namespace_prefix!("xmlns"))
-                && attr.name.local != local_name!("xmlns")
-        }) {
+        for attr in tag
+            .attrs
+            .iter_mut()
+            .filter(|attr| !is_namespace_declaration(attr))
+        {
             if self.bind_attr_qname(&mut present_attrs, &mut attr.name) {
                 new_attr.push(attr.clone());
             }
